@@ -270,11 +270,16 @@ Proof.
   - destruct (sz >? zlen r2); [discriminate|]. intros Hd. apply skip_elems_suffix in Hd; auto.
 Qed.
 
+(* (stated on skip_go and proved by [apply] on the goal: converting a HYPOTHESIS about skip_go into one about
+   skip max_skip_depth makes the kernel unfold the 1023-deep fixpoint) *)
+Corollary skip_go_suffix_of t bs r : skip_go t bs = Some r -> suffix_of r bs.
+Proof. apply skip_suffix. Qed.
+
 (* skip returns a strictly shorter suffix: r = skipn n bs with 1 <= n <= |bs| *)
 Corollary skip_go_suffix t bs r : skip_go t bs = Some r ->
   exists n, (1 <= n <= length bs)%nat /\ r = skipn n bs.
 Proof.
-  intros H. pose proof (skip_go_shrinks _ _ _ H) as Hl. apply skip_suffix in H. destruct H as [n ->].
+  intros H. pose proof (skip_go_shrinks _ _ _ H) as Hl. apply skip_go_suffix_of in H. destruct H as [n ->].
   rewrite skipn_length in Hl. exists (Nat.min n (length bs)). split; [lia|].
   destruct (Nat.le_ge_cases n (length bs)).
   - rewrite Nat.min_l by assumption. reflexivity.
@@ -310,7 +315,7 @@ Proof.
   destruct (dec_int idb =? id).
   { cbn [sres_inside]. unfold zlen. cbn [length]. split; [lia|]. split; [lia|]. apply suffix_cons; assumption. }
   destruct (skip_go t r2) as [r3|] eqn:E3; [|exact I].
-  pose proof (skip_suffix _ _ _ _ E3) as S3. apply skip_go_shrinks in E3.
+  pose proof (skip_go_suffix_of _ _ _ E3) as S3. apply skip_go_shrinks in E3.
   specialize (IH id r3 (off + 3 + (zlen r2 - zlen r3))).
   destruct (search_field f id r3 _) as [t' o rest| |]; try exact I.
   cbn [sres_inside] in *. destruct IH as (Ho & Hl & Hs). unfold zlen in *. cbn [length].
@@ -322,7 +327,7 @@ Proof.
   induction n as [|n IH]; intros et bs off; cbn [search_nth].
   - cbn. split; [lia|]. split; [lia|apply suffix_refl].
   - destruct (skip_go et bs) as [r|] eqn:E; [|exact I].
-    pose proof (skip_suffix _ _ _ _ E) as S1. apply skip_go_shrinks in E.
+    pose proof (skip_go_suffix_of _ _ _ E) as S1. apply skip_go_shrinks in E.
     specialize (IH et r (off + (zlen bs - zlen r))).
     destruct (search_nth n et r _) as [t' o rest| |]; try exact I.
     cbn [sres_inside] in *. destruct IH as (Ho & Hl & Hs). unfold zlen in *.
@@ -350,7 +355,7 @@ Proof.
   cbv zeta. destruct hit.
   { cbn. unfold zlen. split; [lia|]. split; [lia|assumption]. }
   destruct (skip_go vt r) as [r2|] eqn:E2; [|exact I].
-  pose proof (skip_suffix _ _ _ _ E2) as S2. apply skip_go_shrinks in E2.
+  pose proof (skip_go_suffix_of _ _ _ E2) as S2. apply skip_go_shrinks in E2.
   specialize (IH r2 (off + (zlen bs - zlen r) + (zlen r - zlen r2))).
   destruct (search_pairs n rdkey vt r2 _) as [t' o rest| |]; try exact I.
   cbn [sres_inside] in *. destruct IH as (Ho & Hl & Hs). unfold zlen in *.
@@ -388,7 +393,7 @@ Qed.
 Lemma rd_bin_key_suffix kt k b hit r : rd_bin_key kt k b = Some (hit, r) -> suffix_of r b.
 Proof.
   unfold rd_bin_key. destruct (skip_go kt b) as [r1|] eqn:E; [|discriminate].
-  apply skip_suffix in E. intros H; inversion H; subst. assumption.
+  apply skip_go_suffix_of in E. intros H; inversion H; subst. assumption.
 Qed.
 
 Lemma search_map_inside s bs : sres_inside (search_map s bs) bs 0.
